@@ -156,19 +156,13 @@ def connTokens (c : Str) : List Str := ((splitComma c).map trimSpace).filter (fu
 /-- every token of every `Connection` header line -/
 def connListed (h : Hdr) : List Str := (h.vals sConnection).flatMap connTokens
 
-/-- `createUpstreamRequest`: only the first `Connection` line is read, and a hop-by-hop header is
-deleted only when `Get` returns a non-empty first value. -/
-def stripHopReq (hop : List Str) (h : Hdr) : Hdr :=
-  let c := h.get sConnection
-  let h1 := if c != [] then (connTokens c).foldl Hdr.del h else h
-  hop.foldl (fun h x => if h.get x != [] then h.del x else h) h1
-
-/-- `ReverseProxy.ServeHTTP`: only the first `Connection` line is read; the hop-by-hop list is deleted
-unconditionally. -/
-def stripHopResp (hop : List Str) (h : Hdr) : Hdr :=
-  let c := h.get sConnection
-  let h1 := if c != [] then (connTokens c).foldl Hdr.del h else h
-  hop.foldl Hdr.del h1
+/-- Removal of the headers named by `Connection` and of the hop-by-hop list: the two loops of
+`createUpstreamRequest` (request) and of `ReverseProxy.ServeHTTP` (response).  Every `Connection`
+line is read, every token of it is deleted, then every name of the hop-by-hop list is deleted
+whatever its values are.  (The request side only copies the header map before the first
+deletion; the copy is not observable at the backend and is not modelled.) -/
+def stripHop (hop : List Str) (h : Hdr) : Hdr :=
+  hop.foldl Hdr.del ((connListed h).foldl Hdr.del h)
 
 /-! ### header rules (`mutateHeadersByRules`, without regex replacements) -/
 
@@ -256,7 +250,7 @@ deriving Repr, DecidableEq
 
 /-- `createUpstreamRequest` (the copy-on-write of the header map is not observable and not modelled) -/
 def createUpstreamRequest (hop : List Str) (r : Request) : Request :=
-  let h2 := stripHopReq hop r.header
+  let h2 := stripHop hop r.header
   let h3 :=
     match splitHostPort r.remoteAddr with
     | some (ip, _) =>
@@ -318,7 +312,7 @@ def shallowCopyTrailers (dst trailer : Hdr) (force : Bool) : Hdr :=
 /-- `ReverseProxy.ServeHTTP` after the round trip, non-websocket branch.
 `pre` is the header map of the ResponseWriter before the proxy runs. -/
 def respond (hop skip : List Str) (repl : Str → Str) (down : Rules) (pre : Hdr) (res : Response) : ClientView :=
-  let h := applyRules repl (stripHopResp hop res.header) down
+  let h := applyRules repl (stripHop hop res.header) down
   let merged := copyHeader skip pre h
   let snap := if res.announced.length > 0 then merged.setRaw sTrailer res.announced else merged
   let force := res.trailer.keys.length != res.announced.length
